@@ -365,6 +365,7 @@ def _cfg(sharing, milens, rule, big, printing):
         f"Sharing = {'TRUE' if sharing else 'FALSE'}\n"
         f"MILens = {{{', '.join(str(i) for i in sorted(milens))}}}\n"
         f'MiLenRule = "{rule}"\n'
+        f'ReprRule = "{probe_repr_rule()}"\n'
         f"Big = {'TRUE' if big else 'FALSE'}\n"
         f"PrintTable = {'TRUE' if printing else 'FALSE'}\n"
     )
@@ -550,6 +551,21 @@ def report_law_failure(ctx, law, terms, sharing, keys):
 # =============================================================================================
 # (a) + (b)
 # =============================================================================================
+
+
+def probe_repr_rule():
+    """Which transcription of _cmp_terminal_by_repr matches the code under test: plain string
+    comparison of the reprs (pinned tree) or natural order (embedded numbers by value)."""
+    from ufl.sorting import _cmp_terminal_by_repr
+
+    class _R:
+        def __init__(self, r):
+            self.r = r
+
+        def __repr__(self):
+            return self.r
+
+    return "natural" if _cmp_terminal_by_repr(_R("c(9)"), _R("c(10)")) < 0 else "string"
 
 
 def probe_rule():
